@@ -33,13 +33,15 @@ theorem c18s_data_adapter_thread {s s' : DState} {tid : String} {op : OpClass} {
     (hc : ∃ m y, GEff.adapterBegin m y ∈ effs ∨ GEff.adapterEnd m y ∈ effs) :
     tid ≠ "R" ∧ tid ≠ "W" ∧ tid ≠ "M" ∧ tid ≠ "P" ∧ tid.startsWith "T" = true := gstep_adapter_thread h hc
 
-theorem c18s_meta_enabled (s : MState) (env : InitEnv) :
-    (s.rthr = 2 → s.rq = [] → s.inbound ≠ [] → (mstep s env "R" .recv).isSome) ∧
+/-- (as long as the process has not exited — the default reaction to an I/O failure; the reader's `recv` is also enabled
+    when the peer has closed the connection: it is then the failing read of Conc/MetaFault.lean.) -/
+theorem c18s_meta_enabled (s : MState) (env : InitEnv) (hx : s.exited = false) :
+    (s.rthr = 2 → s.rq = [] → (s.inbound ≠ [] ∨ s.inEnd = true) → (mstep s env "R" .recv).isSome) ∧
     (s.rthr = 2 → ∀ l rest, s.rq = .reply l :: rest → (mstep s env "R" .put).isSome) ∧
     (s.wthr = 2 → s.wsend = none → s.sendQ ≠ [] → (mstep s env "W" .get).isSome) ∧
     (s.wthr = 2 → ∀ m, s.wsend = some m → (mstep s env "W" .send).isSome) :=
-  ⟨fun hr => (mstep_reader_enabled s env hr).1, fun hr => (mstep_reader_enabled s env hr).2,
-   fun hw => (mstep_writer_enabled s env hw).1, fun hw => (mstep_writer_enabled s env hw).2⟩
+  ⟨fun hr => (mstep_reader_enabled s env hr hx).1, fun hr => (mstep_reader_enabled s env hr hx).2,
+   fun hw => (mstep_writer_enabled s env hw hx).1, fun hw => (mstep_writer_enabled s env hw hx).2⟩
 
 theorem c18s_data_enabled (s : DState) (x : String) :
     (s.rst = 2 → s.rmid = none → s.rq = [] → s.inbound ≠ [] → (gstep s "R" .recv x).isSome) ∧
